@@ -24,6 +24,7 @@ type Shape struct {
 	ChildRefs   int    // referrers attached to manifests below the top (platform images, nested indexes)
 	ChildDTags  int    // digest tags attached to manifests below the top
 	RefOfRef    bool   // a referrer of the first referrer
+	DTagAlias   bool   // a further digest tag that names the same manifest as the first one
 	DigestTags  int    // sha256-<hex>.suffix style tags pointing to extra images
 	Foreign     bool   // a foreign layer with URLs not hosted by the source
 	ForeignURL  string `json:"-"` // base URL of a host that really serves foreign layers (default: an unreachable address)
@@ -235,6 +236,10 @@ func Random(rng *rand.Rand, alg string, s Shape, topTag string) *Graph {
 		im := image(10+i, &p, nil, "", nil)
 		alg, enc, _ := la.SplitDigest(top.Digest)
 		g.Tags[fmt.Sprintf("%s-%s.%s", alg, enc, []string{"sig", "att"}[i%2])] = im.ID
+		if s.DTagAlias && i == 0 {
+			// two digest tags that name one and the same manifest
+			g.Tags[fmt.Sprintf("%s-%s.%s", alg, enc, "copy")] = im.ID
+		}
 	}
 	return g
 }
